@@ -1,5 +1,6 @@
 //! C20 — term-id text and byte conversions are total and mutually inverse.
 
+use crate::gen::pick;
 use crate::model::*;
 use crate::observe::guarded;
 use crate::runner::*;
@@ -192,8 +193,54 @@ fn string_strategy() -> BoxedStrategy<String> {
         1 => ("[0-9]{1,7}", proptest::sample::select(vec!["\r\n", "\n\n", "\n\r", " \n", "\t\n", "\0\0"])).prop_map(|(a, c)| format!("{a}{c}")),
     ];
     let any_chars = proptest::collection::vec(any::<char>(), 0..14).prop_map(|v| v.into_iter().collect::<String>());
+    // structural edits of an acceptable text, the way mutational fuzzers make them: a slice of the text is
+    // repeated, moved, removed or reversed ("HP:HP:5", "HP:5HP:5", "HP:5:5", "PH:5" ...). A parser that
+    // strips, searches or splits instead of cutting at byte 3 gives itself away on these.
+    let edited = (
+        prop_oneof![6 => Just("HP:".to_string()), 1 => Just("hp:".to_string()), 1 => Just("HP".to_string()), 1 => Just("ab€".to_string())],
+        prop_oneof![4 => "[0-9]{1,7}", 1 => "0{1,6}[0-9]{1,4}", 1 => "\\+[0-9]{1,7}", 1 => Just("4294967295".to_string())],
+        proptest::collection::vec((0u8..5, any::<u16>(), any::<u16>(), 1u8..4), 1..3),
+    )
+        .prop_map(|(p, b, ops)| {
+            let plen = p.chars().count();
+            let mut t: Vec<char> = format!("{p}{b}").chars().collect();
+            for (op, i, j, k) in ops {
+                if t.is_empty() {
+                    break;
+                }
+                // half of the edits work on the prefix itself
+                let (i, j) = if i & 1 == 0 { (0, plen.min(t.len())) } else { (pick(i, t.len()), pick(j, t.len() + 1)) };
+                let (i, j) = (i.min(j), i.max(j));
+                let slice: Vec<char> = t[i..j].to_vec();
+                match op {
+                    0 => {
+                        // repeat in place
+                        for _ in 0..k {
+                            t.splice(i..i, slice.iter().copied());
+                        }
+                    }
+                    1 => {
+                        // copy to the end
+                        for _ in 0..k {
+                            t.extend(slice.iter().copied());
+                        }
+                    }
+                    2 => {
+                        // move to the end
+                        t.drain(i..j);
+                        t.extend(slice.iter().copied());
+                    }
+                    3 => {
+                        t.drain(i..j);
+                    }
+                    _ => t[i..j].reverse(),
+                }
+            }
+            t.into_iter().collect::<String>()
+        });
     prop_oneof![
         8 => (prefix, body).prop_map(|(p, b)| format!("{p}{b}")),
+        2 => edited,
         1 => any_chars,
         1 => "\\PC{0,14}",
         1 => "[ -~]{0,14}",
@@ -206,7 +253,7 @@ impl Property for C20 {
         "C20"
     }
     fn rule(&self) -> String {
-        "Enumerated (exhaustive sub-sweep, both tiers): every id 0..10^7 plus 10^7..10^7+10^4, powers of two and the u32 borders: to_string == 'HP:'+7-digit zero padding, try_from(to_string) == id, from(to_be_bytes) == id, from_u32/as_u32/to_usize/From<u32>/From<u64>/From<usize>/From<u16> agree, From<String>, == &str and Debug on every 64th id. Generated: strings = prefix pool (HP:, hp:, short, multi-byte prefixes whose 3rd byte lies inside a character) x body pool (digits, leading zeros, +/-, spaces, overflow 4294967295/6, non-ASCII digits, random unicode, one control / white-space / separator / exponent character at any position of a number, trailing CR/LF) plus arbitrary strings of any chars; oracle = hand-written reference parser (>=4 bytes, byte 3 on a char boundary, rest matches +?[0-9]+ and <= u32::MAX); never panics; Gene/Omim/OrphaId::try_from checked with the same grammar on the whole string. evaluations = ids enumerated + strings checked. Non-trivial = string is not the canonical rendering of an id; distinct by string.".into()
+        "Enumerated (exhaustive sub-sweep, both tiers): every id 0..10^7 plus 10^7..10^7+10^4, powers of two and the u32 borders: to_string == 'HP:'+7-digit zero padding, try_from(to_string) == id, from(to_be_bytes) == id, from_u32/as_u32/to_usize/From<u32>/From<u64>/From<usize>/From<u16> agree, From<String>, == &str and Debug on every 64th id. Generated: strings = prefix pool (HP:, hp:, short, multi-byte prefixes whose 3rd byte lies inside a character) x body pool (digits, leading zeros, +/-, spaces, overflow 4294967295/6, non-ASCII digits, random unicode, one control / white-space / separator / exponent character at any position of a number, trailing CR/LF), structural edits of acceptable text (a slice, half of the time the prefix, repeated / copied to the end / moved / removed / reversed: 'HP:HP:5', 'HP:5HP:5') plus arbitrary strings of any chars; oracle = hand-written reference parser (>=4 bytes, byte 3 on a char boundary, rest matches +?[0-9]+ and <= u32::MAX); never panics; Gene/Omim/OrphaId::try_from checked with the same grammar on the whole string. evaluations = ids enumerated + strings checked. Non-trivial = string is not the canonical rendering of an id; distinct by string.".into()
     }
     fn assumptions(&self) -> Vec<String> {
         vec!["'parsable to u32' is Rust's grammar: optional '+', ASCII digits, value <= u32::MAX".into()]
